@@ -56,6 +56,34 @@ P_Outward == (R.op \in {"split", "swap", "merge", "merge_blocked", "swap_skipped
                 \E f \in Live(Pre) \cap Live(Post) : f # R.f1 /\ f # R.f2 /\ SameCyclic(Ren(Pre.tri[f]), Post.tri[f])
 P_Rebase  == (R.op = "rebase" /\ WellFormed(Pre) /\ R.threw = "") => Post = Rebase(Pre)   \* order preserving compaction
 
+---------------------------------------------------------------------------
+(* Property C11 on the records of real refine_mesh passes.  The numeric facts (sums of momenta, bitwise equality of
+   positions, squared lengths) are evaluated by the driver with formulas that do not use the code under test and are
+   logged under "num"; the label rule is evaluated here from the two meshes. *)
+SingleOps == {"split", "merge", "swap", "swap_skipped", "merge_blocked"}
+N_Momentum  == R.op \in SingleOps \cup {"pass"} => R.num.mom_ok
+N_Survivors == R.op \in SingleOps => R.num.surv_ok
+N_Midpoint  == /\ R.op \in {"split", "merge"} => (R.num.mid_ok /\ R.num.n_new = 1)
+               /\ R.op \in {"swap", "swap_skipped", "merge_blocked"} => R.num.n_new = 0
+N_Labels    == (R.op = "split" /\ WellFormed(Pre) /\ Cardinality(NewNodes) = 1) =>
+                  LET e == CHOOSE n \in NewNodes : TRUE
+                      c == Opp(Pre.tri[R.f1], R.a, R.b)
+                      d == Opp(Pre.tri[R.f2], R.a, R.b)
+                      star == {f \in Live(Post) : e \in NodesOf(Post.tri[f])}
+                  IN /\ Cardinality(star) = 4
+                     /\ \A f \in star : /\ c \in NodesOf(Post.tri[f]) => Post.ftype[f] = Pre.ftype[R.f1]
+                                        /\ d \in NodesOf(Post.tri[f]) => Post.ftype[f] = Pre.ftype[R.f2]
+                     /\ \A f \in Live(Post) \ star : f \in Live(Pre) /\ Post.ftype[f] = Pre.ftype[f]
+N_Selective == R.op \in {"split", "merge", "merge_blocked"} => R.num.sel_ok
+N_VolArea   == /\ R.op = "split" => (R.num.vol_same /\ R.num.area_same)
+               /\ (R.op = "pass" /\ R.num.n_merge = 0 /\ R.num.n_swap = 0) => (R.num.vol_same /\ R.num.area_same)
+N_Idempotent == R.op = "pass" => /\ (R.num.n_split + R.num.n_merge + R.num.n_swap = 0) => R.num.unchanged
+                                 /\ R.num.in_band => (R.num.unchanged /\ R.threw = "")
+\* the pass counts one iteration per split/merge and reports failure only when that count reaches the size of the edge set
+\* (when merges shrink the edge set below the count the loop simply stops: allowed, the property promises return, not completion)
+N_Bounded   == R.op = "pass" => /\ R.num.v1 = R.num.n_split + R.num.n_merge
+                                /\ (R.threw # "" <=> R.num.v1 = R.num.v2)
+
 Expected == CASE R.op = "split"   -> Split(Pre, R.a, R.b, R.f1, R.f2)
               [] R.op = "swap"    -> Swap(Pre, R.a, R.b, R.f1, R.f2)
               [] R.op = "merge"   -> Merge(Pre, R.a, R.b, R.f1, R.f2)
